@@ -64,7 +64,8 @@ def gen_binding(r, m, avoid=(), body_like=None, force_pat=_ANY):
             and not (avoid and p in ("**", "*", None))]
     pat = r.pick(pats) if force_pat is _ANY else force_pat
     var = ROUTING[m]
-    prefix = r.pick(["/v1/", "/v1beta1/", "/compute/v1/", "/"])
+    # half of the URIs carry the RPC's name: a REST call dispatched through ANOTHER mixin's stub shows in the path
+    prefix = r.pick(["/v1/", "/v1beta1/", "/compute/v1/", "/"]) if r.maybe(0.5) else f"/{snake(m)}/v1/"
     suffix = r.pick(SUFFIX.get(m, [""]) + ([""] if r.maybe(0.1) else []))
     uri = prefix + ("{" + var + "}" if pat is None else "{" + var + "=" + pat + "}") + suffix
     verb = r.pick(VERBS[m]) if r.maybe(0.85) else r.pick(["get", "post", "put", "patch", "delete"])
@@ -187,12 +188,23 @@ def gen_cfg(r, listed=None, transport=None, add_iam=None, own=None, mixed=False,
     if not t3 and r.maybe(0.5) and rules:
         k = r.randrange(len(rules))                                   # custom / unset patterns: T2 only
         rules[k] = dict(rules[k], verb=r.pick(["custom", ""]))
+    if not t3 and r.maybe(0.5) and rules:
+        k = r.randrange(len(rules))                                   # reserved words as body / path variable: T2 only
+        w = r.pick(["format", "type", "__peg_parser__", "class", "license", "name_", "import"])
+        if r.maybe(0.5):
+            rules[k] = dict(rules[k], body=w)
+        else:
+            v2 = r.pick([w, "book." + w, w + ".id", "a.b"])
+            rules[k] = dict(rules[k], uri=r.pick(["/v1/{%s=things/*}", "/v1/{%s}/x/{name=a/*}", "/v1/x/{%s=**}:do"]) % v2)
     r.shuffle(rules)
     cfg["rules"] = rules
     last = {}
     for ru in rules:
         last[ru["selector"]] = ru
     cfg["calls"] = {m: gen_call(r, cfg, m, last.get(f"{API_OF[m]}.{m}")) for m in ALL_METHODS}
+    order = list(ALL_METHODS)
+    r.shuffle(order)
+    cfg["order"] = order                                              # order of the second round of calls
     return cfg
 
 
@@ -245,6 +257,13 @@ RESPONSES = {
 }
 
 
+def call_rounds(cfg):
+    """the call program of one session: round 1 every mixin RPC in table order (caller's request form, metadata, timeout);
+    round 2 every RPC again on the same client in another order (stub caches, caller's retry); round 3 without a request"""
+    order2 = cfg.get("order") or list(reversed(ALL_METHODS))
+    return [list(ALL_METHODS), list(order2), list(ALL_METHODS)]
+
+
 def observe(cfg):
     """everything the real code does on this configuration (runs in a worker process; JSON in, JSON out)"""
     import yaml
@@ -295,21 +314,39 @@ def observe(cfg):
         loc = rpc.py_locations(api, svc)
         codec = rpc.Codec(files)
         grpc_calls, rest_calls = [], []
-        script = {}
+        script, script_retry = {}, {}
         for m in ALL_METHODS:
             out_t = TYPES[m][1]
             reply = codec.encode_b64(out_t, RESPONSES[out_t])
-            script[f"/{API_OF[m]}/{m}"] = [{"replies": [reply]}]
-            for s in ("Library", "Admin"):
-                script[f"/{PKG}.{s}/{m}"] = [{"replies": [reply]}]
-        for m in ALL_METHODS:
-            c = cfg["calls"][m]
-            call = {"method": snake(m), "mode": c["mode"], "py_request": py_request(m),
-                    "request_b64": codec.encode_b64(TYPES[m][0], c["fields"]),
-                    "call_kwargs": {"metadata": [["x-verif", "1"]]}}
-            grpc_calls.append(dict(call, script=script))
-            body = json.dumps(json_format.MessageToDict(_msg(codec, TYPES[m][1], RESPONSES[TYPES[m][1]])))
-            rest_calls.append(dict(call, script=[{"status": 200, "body": body}]))
+            for path in [f"/{API_OF[m]}/{m}"] + [f"/{PKG}.{s}/{m}" for s in ("Library", "Admin")]:
+                script[path] = [{"replies": [reply]}]
+                script_retry[path] = [{"code": "UNAVAILABLE", "tag": "fail-once"}, {"replies": [reply]}]
+        retry = {"exceptions": ["ServiceUnavailable"], "initial": 0.001, "maximum": 0.002, "multiplier": 1.0, "deadline": 30.0}
+        for rnd, seq in enumerate(call_rounds(cfg), 1):
+            for m in seq:
+                c = cfg["calls"][m]
+                call = {"method": snake(m), "py_request": py_request(m), "request_b64": codec.encode_b64(TYPES[m][0], c["fields"])}
+                body = json.dumps(json_format.MessageToDict(_msg(codec, TYPES[m][1], RESPONSES[TYPES[m][1]])))
+                if rnd == 1:      # the caller's form of the request, metadata and timeout
+                    if c["mode"] == "request-dict":
+                        call.update(mode="request-literal-dict", request_literal=c["fields"])   # what a caller writes by hand
+                    else:
+                        call["mode"] = "request-instance"
+                    call["call_kwargs"] = {"metadata": [["x-verif", "1"]], "timeout": 7.0}
+                    grpc_calls.append(dict(call, script=script))
+                    rest_calls.append(dict(call, script=[{"status": 200, "body": body}]))
+                elif rnd == 2:    # second call on the same client, other order; the caller's retry must be honoured
+                    call["mode"] = "request-instance"
+                    call["call_kwargs"] = {"metadata": [["x-verif", "2"]], "retry": dict(retry)}
+                    grpc_calls.append(dict(call, script=script_retry))
+                    rest_calls.append(dict(call, script=[{"status": 503, "body": "{}", "tag": "fail-once"}, {"status": 200, "body": body}]))
+                else:             # request omitted (the signature's default)
+                    call["mode"] = "request-none"     # (REST: an empty request matches no binding — not examined)
+                    grpc_calls.append(dict(call, script=script))
+        async_calls = copy.deepcopy(grpc_calls)
+        for c in async_calls:
+            if isinstance(c.get("call_kwargs", {}).get("retry"), dict):
+                c["call_kwargs"]["retry"]["async"] = True
         cmod, cname = loc["client"].split(":")
         amod, aname = loc["async_client"].split(":")
         ops = [{"op": "import_all", "package": loc["package"]}, {"op": "dir", "module": cmod, "attr": cname}]
@@ -317,10 +354,15 @@ def observe(cfg):
         tr = cfg["transport"].split("+")
         if "grpc" in tr:
             ops.append({"op": "dir", "module": amod, "attr": aname}); labels.append("dir_async")
-            ops.append({"op": "grpc_session", "client": loc["client"], "transport": loc["grpc"], "async": False, "calls": grpc_calls}); labels.append("grpc_sync")
-            ops.append({"op": "grpc_session", "client": loc["async_client"], "transport": loc["grpc_asyncio"], "async": True, "calls": grpc_calls}); labels.append("grpc_async")
+            ops.append({"op": "grpc_session", "client": loc["client"], "transport": loc["grpc"], "async": False, "calls": grpc_calls, "trap_sleep": True}); labels.append("grpc_sync")
+            ops.append({"op": "grpc_session", "client": loc["async_client"], "transport": loc["grpc_asyncio"], "async": True, "calls": async_calls, "trap_sleep": True}); labels.append("grpc_async")
+        for lab in ("grpc", "grpc_asyncio", "rest"):
+            if lab.split("_")[0] in tr:
+                tmod, tname = loc[lab].split(":")
+                ops.append({"op": "dir", "module": tmod, "attr": tname}); labels.append("dir_" + lab)
+                ops.append({"op": "wrapped_by_name", "transport": loc[lab], "kind": lab}); labels.append("wrapped_" + lab)
         if "rest" in tr:
-            ops.append({"op": "rest_session", "client": loc["client"], "transport": loc["rest"], "calls": rest_calls}); labels.append("rest")
+            ops.append({"op": "rest_session", "client": loc["client"], "transport": loc["rest"], "calls": rest_calls, "trap_sleep": True}); labels.append("rest")
         out = libhost.run(root, ops, timeout=300)
         for lab, o in zip(labels, out):
             obs[lab] = o
@@ -405,10 +447,20 @@ def flatten(prefix, v, out):
     return out
 
 
+def py_safe(word):
+    from gapic.utils import RESERVED_NAMES
+    return word + "_" if word in RESERVED_NAMES else word
+
+
 def yaml_http_options(cfg, m):
-    """the bindings of the YAML rule in declared order (primary, then additional_bindings), unparseable ones dropped"""
+    """the bindings of the YAML rule in declared order (primary, then additional_bindings), unparseable ones dropped;
+    field names that are reserved words in Python appear with the `_` suffix the emitted classes give them"""
     ru = effective_rule(cfg, m)
-    return [[b["verb"], b["uri"], b["body"] or None] for b in [ru] + ru["additional"] if b["verb"] not in ("", "custom") and b["uri"]]
+
+    def uri(u):
+        return re.sub(r"\{([^=}/]+)", lambda mo: "{" + ".".join(py_safe(x) for x in mo.group(1).split(".")), u)
+    return [[b["verb"], uri(b["uri"]), (py_safe(b["body"]) if b["body"] else None)] for b in [ru] + ru["additional"]
+            if b["verb"] not in ("", "custom") and b["uri"]]
 
 
 def expected_rest(cfg, m, jf, skip=()):
@@ -505,6 +557,9 @@ def judge(ctx, cfg, obs, label=""):
     m_http = {n: v for n, v in sel["http"]}
     if m_http != obs["http"]:
         ctx.disagree("T2:c17.mixin_http_options", f"model {m_http} vs impl {obs['http']}", payload)
+    m_sig = {n: v for n, v in sel["signatures"]}
+    if m_sig != obs.get("signatures"):
+        ctx.disagree("T2:c17.mixin_api_signatures", f"model {m_sig} vs impl {obs.get('signatures')}", payload)
     # ---- oracle on the selection (statement: exactly those listed that have a rule; IAM yields to same-named)
     for m in ALL_METHODS:
         want, got = expected_exposed(cfg, m), m in obs["methods"]
@@ -566,6 +621,37 @@ def judge(ctx, cfg, obs, label=""):
                     ctx.fail("presence:missing", f"{kind} client lacks {snake(m)}", dict(payload, method=m, client=kind))
             if m in present and not want:
                 ctx.fail("presence:extra", f"{kind} client exposes {snake(m)} although it is not configured", dict(payload, method=m, client=kind))
+    # ------------------------------------------------ T3: transports (stubs present, wrapped-method tables)
+    for lab in ("grpc", "grpc_asyncio", "rest"):
+        if lab.split("_")[0] not in tr:
+            continue
+        names = set(obs.get("dir_" + lab, {}).get("names", []))
+        wr = obs.get("wrapped_" + lab, {})
+        if not names or "wrapped" not in wr:
+            ctx.fail("session-failed", f"introspection of the {lab} transport failed: {str(obs.get('dir_' + lab))[:150]} {str(wr)[:150]}", payload)
+            continue
+        ctx.traces += 1
+        have = {m for m in ALL_METHODS if snake(m) in names}
+        model_have = (set(sel["rest_transport"]) if lab == "rest" else set(sel["grpc_transport"])) | own_here
+        if lab == "rest" and cfg["add_iam"]:      # dir() also shows the abstract legacy properties inherited from the base transport
+            have -= set(IAM_METHODS) - model_have
+        if have != model_have:
+            ctx.disagree(f"T3:c17.transport.{lab}", f"model {sorted(model_have)} vs impl {sorted(have)}", payload)
+        wrapped = {m for m in ALL_METHODS if snake(m) in wr["wrapped"]}
+        if wrapped != set(sel["wrapped"]) | own_here:
+            ctx.disagree(f"T3:c17.wrapped.{lab}", f"model {sorted(set(sel['wrapped']) | own_here)} vs impl {sorted(wrapped)}", payload)
+        for m in ALL_METHODS:
+            if m in own_here:
+                continue
+            want = expected_exposed(cfg, m) or (cfg["add_iam"] and m in IAM_METHODS and lab != "rest")
+            if want and m not in have and not (API_OF[m] == IAM and own_all(cfg)):
+                ctx.fail("transport:missing-stub", f"{lab} transport has no {snake(m)} although the RPC is configured", dict(payload, method=m, client=lab))
+            if m in have and not (want or (cfg["add_iam"] and m in IAM_METHODS)):
+                ctx.fail("transport:extra-stub", f"{lab} transport carries {snake(m)} although the RPC is not configured", dict(payload, method=m, client=lab))
+            if m in wrapped:
+                e = wr["wrapped"][snake(m)]
+                if e.get("timeout") is not None or e.get("retry") is not None:
+                    ctx.disagree(f"T3:c17.wrapped.{lab}.defaults", f"{m}: wrapped with {e}, the template says default_timeout=None and no retry", payload)
     # ------------------------------------------------ T3: gRPC
     for kind, key, mkey in ([("sync", "grpc_sync", "grpc_sync"), ("async", "grpc_async", "grpc_async")] if "grpc" in tr else []):
         sess = obs.get(key, {})
@@ -573,20 +659,36 @@ def judge(ctx, cfg, obs, label=""):
             ctx.fail("session-failed", f"gRPC {kind} session failed: {str(sess)[-300:]}", payload)
             continue
         mo = {n: v for n, v in sel[mkey]}
-        for m, res in zip(ALL_METHODS, sess["calls"]):
-            p2 = dict(payload, method=m, client=kind)
+        flat = [(rnd, m) for rnd, seq in enumerate(call_rounds(cfg), 1) for m in seq]
+        for (rnd, m), res in zip(flat, sess["calls"]):
+            p2 = dict(payload, method=m, client=kind, round=rnd)
             legacy = cfg["add_iam"] and m in IAM_METHODS
             want = expected_exposed(cfg, m) or legacy
             ctx.traces += 1
-            ctx.count("grpc_calls", f"{kind}:{'legacy' if legacy else ('mixin' if want else ('own' if m in own_here else 'absent'))}")
+            ctx.count("grpc_calls", f"round{rnd}:{kind}:{'legacy' if legacy else ('mixin' if want else ('own' if m in own_here else 'absent'))}")
             srv = res.get("server", [])
+            no_such_method = res.get("raised") == "AttributeError" and not srv and f"has no attribute '{snake(m)}'" in res.get("msg", "")
+            if rnd == 3:
+                # ---- the request omitted: the signature's own default (`request: Optional[...] = None`)
+                if not want or m in own_here or no_such_method:
+                    continue
+                if res.get("raised") == "AttributeError" and "'NoneType' object has no attribute" in res.get("msg", ""):
+                    ctx.fail("mixin-request-none:AttributeError", f"{kind} {snake(m)}() with the request omitted (its default, None) raises "
+                             f"AttributeError: {res.get('msg', '')[:80]} — no empty request is built, nothing is sent", p2)
+                elif "ok" not in res or len(srv) != 1 or srv[0]["path"] != f"/{API_OF[m]}/{m}":
+                    ctx.fail("mixin-request-none:other", f"{kind} {snake(m)}() with the request omitted: {res.get('raised')} {res.get('msg', '')[:120]} "
+                             f"server saw {[x['path'] for x in srv]}", p2)
+                elif srv[0]["requests"] and codec.decode(TYPES[m][0], srv[0]["requests"][0]) != {}:
+                    ctx.fail("mixin-request-none:other", f"{kind} {snake(m)}() sent a non-empty request", p2)
+                continue
+            nrec = 2 if rnd == 2 else 1
             # ---- observed outcome, in the model's vocabulary
             if "ok" in res and srv:
                 ret = res["ok"]
                 rk = ["none"] if ret["kind"] == "none" else (["bytes"] if ret["kind"] == "bytes" else ["message", ret.get("type")])
-                hdr = md_value(srv[0], "x-goog-request-params")
-                got = {"outcome": "sent", "path": srv[0]["path"], "resp": rk}
-            elif res.get("raised") == "AttributeError" and not srv:
+                hdr = md_value(srv[-1], "x-goog-request-params")
+                got = {"outcome": "sent", "path": srv[-1]["path"], "resp": rk}
+            elif no_such_method:
                 got = {"outcome": "absent"}
             else:
                 got = {"outcome": res.get("raised", "?")}
@@ -616,16 +718,23 @@ def judge(ctx, cfg, obs, label=""):
             if got["outcome"] != "sent":
                 ctx.fail("grpc:raised", f"{kind} {snake(m)} raised {got['outcome']}: {res.get('msg', '')[:200]}", p2)
                 continue
-            if len(srv) != 1 or got["path"] != f"/{API_OF[m]}/{m}":
-                ctx.fail("grpc:path", f"{kind} {snake(m)} reached {[s['path'] for s in srv]}, canonical path is /{API_OF[m]}/{m}", p2)
+            if {x["path"] for x in srv} != {f"/{API_OF[m]}/{m}"}:
+                ctx.fail("grpc:path", f"{kind} {snake(m)} reached {[s['path'] for s in srv]}, canonical path is /{API_OF[m]}/{m}"
+                         + (" (second call on the same client)" if rnd == 2 else ""), p2)
                 continue
-            sent = codec.decode(TYPES[m][0], srv[0]["requests"][0]) if srv[0]["requests"] else None
+            if len(srv) != nrec:
+                ctx.fail("grpc:retry" if rnd == 2 else "grpc:call-count", f"{kind} {snake(m)}: {len(srv)} requests reached the server, expected {nrec}"
+                         + (" (first reply UNAVAILABLE, caller passed retry=Retry(if ServiceUnavailable))" if rnd == 2 else ""), p2)
+                continue
+            if rnd == 1 and not (0 < srv[0]["time_remaining"] <= 7.5):
+                ctx.fail("grpc:timeout", f"{kind} {snake(m)}: deadline at the server {srv[0]['time_remaining']}, caller passed timeout=7.0", p2)
+            sent = codec.decode(TYPES[m][0], srv[-1]["requests"][0]) if srv[-1]["requests"] else None
             if sent != codec.normal(TYPES[m][0], cfg["calls"][m]["fields"]):
                 ctx.fail("grpc:request", f"{kind} {snake(m)} sent {sent}, caller gave {cfg['calls'][m]['fields']}", p2)
             f = ROUTING[m]
             if not hdr or urllib.parse.unquote(hdr[0]) != f"{f}={cfg['calls'][m]['fields'][f]}":
                 ctx.fail("grpc:routing-header", f"{kind} {snake(m)}: x-goog-request-params {hdr}, expected {f}={cfg['calls'][m]['fields'][f]}", p2)
-            if md_value(srv[0], "x-verif") != ["1"]:
+            if md_value(srv[-1], "x-verif") != [str(rnd)]:
                 ctx.fail("grpc:metadata", f"{kind} {snake(m)} lost the caller's metadata", p2)
             out_t = TYPES[m][1]
             ret = res["ok"]
@@ -642,10 +751,11 @@ def judge(ctx, cfg, obs, label=""):
         if "calls" not in sess:
             ctx.fail("session-failed", f"REST session failed: {str(sess)[-300:]}", payload)
             return
-        for m, res in zip(ALL_METHODS, sess["calls"]):
-            p2 = dict(payload, method=m, client="rest")
+        flat = [(rnd, m) for rnd, seq in enumerate(call_rounds(cfg)[:2], 1) for m in seq]
+        for (rnd, m), res in zip(flat, sess["calls"]):
+            p2 = dict(payload, method=m, client="rest", round=rnd)
             legacy = cfg["add_iam"] and m in IAM_METHODS
-            if legacy:
+            if legacy and not expected_exposed(cfg, m):
                 ctx.assume("add-iam-methods is the gRPC-interface legacy option (options.py: 'microgenerator implementation for "
                            "reroute_to_grpc_interface'): legacy IAM methods over the REST transport are not examined")
                 continue
@@ -653,14 +763,14 @@ def judge(ctx, cfg, obs, label=""):
                 continue                                  # the API's own RPC with its own http annotation: C04's subject
             want = expected_exposed(cfg, m)
             ctx.traces += 1
-            ctx.count("rest_calls", "mixin" if want else "absent")
+            ctx.count("rest_calls", f"round{rnd}:" + ("mixin" if want else "absent"))
             srv = res.get("server", [])
             if "ok" in res and srv:
-                s0 = srv[0]
+                s0 = srv[-1]
                 body = json.loads(s0["body"]) if s0["body"] else None
                 q = sorted(urllib.parse.parse_qsl(s0["query"], keep_blank_values=True))
                 got = {"outcome": "sent", "verb": s0["verb"], "path": s0["path"], "body": body, "query": [list(x) for x in q]}
-            elif res.get("raised") == "AttributeError" and not srv:
+            elif res.get("raised") == "AttributeError" and not srv and f"has no attribute '{snake(m)}'" in res.get("msg", ""):
                 got = {"outcome": "not-generated"}
             else:
                 got = {"outcome": res.get("raised", "?")}
@@ -684,6 +794,9 @@ def judge(ctx, cfg, obs, label=""):
                 continue
             if got["outcome"] == "not-generated":
                 continue                                  # reported under presence
+            if rnd == 2 and got["outcome"] == "sent" and (len(srv) != 2 or (srv[0]["verb"], srv[0]["path"]) != (srv[1]["verb"], srv[1]["path"])):
+                ctx.fail("rest:retry", f"rest {snake(m)}: first reply 503, caller passed retry=Retry(if ServiceUnavailable); the server saw "
+                         f"{[(x['verb'], x['path']) for x in srv]}", p2)
             er = expected_rest(cfg, m, jfs[m])
             if er is None:
                 ctx.assume("a request that matches no binding of the rule (google.api_core raises ValueError) is outside the statement")
@@ -854,6 +967,9 @@ def matrix(r, thorough):
             for tr in ("grpc", "rest", "grpc+rest"):
                 for add in ((False, True) if "grpc" in tr else (False,)):
                     cfgs.append(gen_cfg(r, listed=listed, transport=tr, add_iam=add, own=[]))
+                    if add and IAM in listed:
+                        for ir in ([], ["GetIamPolicy"], list(IAM_METHODS)):
+                            cfgs.append(gen_cfg(r, listed=listed, transport=tr, add_iam=True, own=[], iam_rules=ir))
                 if IAM in listed:
                     for own in (["SetIamPolicy"], ["GetIamPolicy", "TestIamPermissions"], list(IAM_METHODS)):
                         cfgs.append(gen_cfg(r, listed=listed, transport=tr, add_iam=False, own=own))
@@ -867,6 +983,10 @@ def matrix(r, thorough):
         cfgs.append(gen_cfg(r, listed=[IAM], transport="grpc+rest", add_iam=False, own=list(IAM_METHODS)))
         for k, (own, ir) in enumerate(OWN_VS_RULES):
             cfgs.append(gen_cfg(r, listed=[IAM] + ([OPS] if k % 2 else []), transport=trs[k % 3], add_iam=False, own=own, iam_rules=ir))
+        # the legacy option next to a listed IAM mixin: with all rules, with some, with none
+        cfgs.append(gen_cfg(r, listed=[IAM], transport="grpc", add_iam=True, own=[], iam_rules=list(IAM_METHODS)))
+        cfgs.append(gen_cfg(r, listed=[IAM, OPS], transport="grpc+rest", add_iam=True, own=[], iam_rules=["GetIamPolicy"]))
+        cfgs.append(gen_cfg(r, listed=[IAM, LOC], transport="grpc+rest", add_iam=True, own=[], iam_rules=[]))
     return cfgs
 
 
@@ -878,17 +998,17 @@ def run(ctx):
                 "(listed set, rule set, transport, option, API-defined RPCs); non-trivial = every configuration")
     workers = int(os.environ.get("VERIF_WORKERS", "6"))
     check_tables(ctx)
-    check_transcode(ctx, ctx.rng("transcode"), ctx.n(150, 1500))
+    check_transcode(ctx, ctx.rng("transcode"), ctx.n(150, 4000))
     r = ctx.rng("configs")
     cfgs = corpus_cfgs()                                              # corpus first
     cfgs += matrix(r, not ctx.quick)
-    cfgs += [gen_cfg(r) for _ in range(ctx.n(16, 150))]
-    cfgs += [gen_cfg(r, mixed=True, listed=[IAM, OPS]) for _ in range(ctx.n(2, 10))]
-    cfgs += [gen_cfg(r, t3=False) for _ in range(ctx.n(40, 600))]      # selection functions only (incl. custom / unset patterns)
+    cfgs += [gen_cfg(r) for _ in range(ctx.n(16, 320))]
+    cfgs += [gen_cfg(r, mixed=True, listed=[IAM, OPS]) for _ in range(ctx.n(2, 24))]
+    cfgs += [gen_cfg(r, t3=False) for _ in range(ctx.n(40, 1500))]      # selection functions only (incl. custom / unset patterns)
     t2 = [c for c in cfgs if not c.get("t3", True)]
     t3 = [c for c in cfgs if c.get("t3", True)]
     run_cfgs(ctx, t3, workers)
-    run_cfgs(ctx, t2, 1)
+    run_cfgs(ctx, t2, workers)
     ctx.assume("path variables of mixin rules are fields of the canonical request messages (none is a reserved name, checked on the live "
                "RESERVED_NAMES): convert_uri_fieldnames is the identity on such URIs")
     ctx.assume("add-iam-methods is not combined with IAM RPCs defined by the API itself")
@@ -906,8 +1026,9 @@ def replay(ctx, payload):
     ctx.driver = leanio.Driver()
     cfg = payload["cfg"]
     judge(ctx, cfg, observe(cfg))
-    want = payload.get("method")
-    fails = [f for f in ctx.failures if not want or f["payload"].get("method") in (None, want)]
+    want, rnd = payload.get("method"), payload.get("round")
+    fails = [f for f in ctx.failures if (not want or f["payload"].get("method") in (None, want))
+             and (f["payload"].get("round") == rnd if rnd else f["payload"].get("round") != 3)]
     for f in fails:
         print("  failure:", f["key"], "-", f["what"])
     return not fails
